@@ -278,7 +278,30 @@ def k4(ctx, kr):
         for nm, okb in st['entries']:
             out.append(ok(Agg('DirEntry', [Str(base + '/' + nm)])) if M.branch(okb) else err(Opaque('io::Error')))
         return ok(IterV(out))
-    stubs = {r'^std::fs::canonicalize(::<.*>)?$': st_canon, r'^std::fs::metadata(::<.*>)?$': st_meta, r'^std::fs::Metadata::(is_dir|is_file|is_symlink)$': st_kind,
+    # what a directory entry is: a regular file, a symbolic link to a regular file, or a sub-directory.  DirEntry::file_type / DirEntry::metadata /
+    # fs::symlink_metadata do not follow links; Path::is_file / is_dir / fs::metadata do.
+    def entry_kind(M, v):
+        while isinstance(v, Ref): v = M.deref(v)
+        if isinstance(v, Agg) and v.name == 'DirEntry': v = v.f[0]
+        p = v.conc() if isinstance(v, Str) else None
+        nm = p.rsplit('/', 1)[-1] if p else None
+        return st['kinds'].get(nm)
+    def st_ftype(M, fr, c, a):
+        k = entry_kind(M, a[0])
+        if k is None: return NotImplemented
+        follow = not re.search(r'DirEntry::(file_type|metadata)$|symlink_metadata', c)
+        return ok(Agg('Metadata', [{'file': 1, 'link': 1 if follow else 2, 'dir': 0}[k]]))
+    def st_pathis(M, fr, c, a):
+        k = entry_kind(M, a[0])
+        if k is None: return NotImplemented
+        what = c.rsplit('::', 1)[1]
+        return {'is_file': k in ('file', 'link'), 'is_dir': k == 'dir', 'is_symlink': k == 'link', 'exists': True}[what]
+    def st_meta2(M, fr, c, a):
+        r = st_ftype(M, fr, c, a)
+        return st_meta(M, fr, c, a) if r is NotImplemented else r
+    stubs = {r'^std::fs::canonicalize(::<.*>)?$': st_canon, r'^std::fs::metadata(::<.*>)?$': st_meta2, r'^std::fs::symlink_metadata(::<.*>)?$': st_meta2, r'^std::fs::(Metadata|FileType)::(is_dir|is_file|is_symlink)$': st_kind,
+             r'^std::fs::DirEntry::(file_type|metadata)$': st_ftype, r'^std::fs::Metadata::file_type$': lambda M, fr, c, a: M.deref(a[0]), r'^std::path::Path::(is_file|is_dir|is_symlink|exists)$': st_pathis,
+             r'^<std::path::PathBuf as std::ops::Deref>::deref$|^std::path::PathBuf::as_path$': lambda M, fr, c, a: a[0],
              r'^std::fs::read_dir(::<.*>)?$': st_read_dir, r'^std::fs::DirEntry::path$': lambda M, fr, c, a: M.deref(a[0]).f[0],
              r'^cli::diagnostic$': lambda M, fr, c, a: VecV([Agg('Diagnostic', [Str('problem')])]),
              r'^<std::io::Error as std::string::ToString>::to_string$': lambda M, fr, c, a: Str('io error'), r'^std::path::Path::display$': lambda M, fr, c, a: Str('path')}
@@ -296,7 +319,10 @@ def k4(ctx, kr):
                     if M.branch(sel == v): j = v; break
                     j = v + 1
                 ents.append((NAMES[j] if i == 0 else '%d%s' % (i, NAMES[j]), M.fresh_bool('entry_ok%d' % i)))
-            st['entries'] = ents
+            st['entries'] = ents; st['kinds'] = {}
+            for i, (nm, okb) in enumerate(ents):
+                kv = M.fresh_bv('entry_kind%d' % i, 8); M.declare_domain(kv, [0, 1, 2])
+                st['kinds'][nm] = 'file' if M.branch(kv == 0) else ('link' if M.branch(kv == 1) else 'dir')
             return M.call_fn(key, [Ref(Cell(Str('dir')))])
         def on_path(M, pr):
             kr.paths += 1
@@ -306,32 +332,48 @@ def k4(ctx, kr):
             tv = lambda b: z3.is_true(m.eval(b, True))
             if st['kind'] != 0 or not tv(st['canon_ok']) or not tv(st['meta_ok']) or not tv(st['readdir_ok']): return       # not a readable directory: covered by K3 (errors propagate)
             names = [nm for nm, okb in st['entries']]
-            readable = [nm for nm, okb in st['entries'] if tv(okb)]
-            wit = {'directory_entries': names, 'readable': readable}
+            kinds = st['kinds']
+            # the files in the directory: regular files and links to regular files (what `check dir/*` hands over one by one); sub-directories are not files of the directory
+            readable = [nm for nm, okb in st['entries'] if tv(okb) and kinds[nm] != 'dir']
+            wit = {'directory_entries': ['%s (%s)' % (nm, kinds[nm]) for nm in names], 'files': readable}
             if pr.panic: _add(kr, 'C13/K4/panic', 'enumerate_files panics: ' + pr.panic.msg[:60], wit, None); return
             res = pr.result
             got = [M.deref(x).conc().rsplit('/', 1)[-1] for x in res.f[0].items] if res.disc == 0 else None
             if got != readable:
                 missing = [x for x in readable if got is None or x not in got]
-                role = 'C13/K4/directory-differs-from-file-list/' + ('-'.join(sorted({re.sub(r'^\d', '', x).rsplit('.', 1)[-1] if '.' in re.sub(r'^\d', '', x)[1:] else 'noext' for x in missing})) or 'other')
-                _add(kr, role, 'a directory holding %s is expanded to %s: the files %s are never checked' % (readable, got, missing), wit, ('cli_directory', (missing[:1] or readable[:1],)))
-            elif len(kr.validate) < 2 and any(not x.endswith('.st') for x in readable): kr.validate.append(('cli_directory', ([x for x in readable if not x.endswith('.st')][:1],)))
+                extra = [x for x in (got or []) if x not in readable]
+                if missing:
+                    role = 'C13/K4/directory-differs-from-file-list/' + ('link-' if any(kinds[x] == 'link' for x in missing) else '') + ('-'.join(sorted({re.sub(r'^\d', '', x).rsplit('.', 1)[-1] if '.' in re.sub(r'^\d', '', x)[1:] else 'noext' for x in missing})) or 'other')
+                    _add(kr, role, 'a directory holding %s is expanded to %s: the files %s are never checked' % (wit['directory_entries'], got, missing), wit, ('cli_directory', (missing[:1] or readable[:1], [kinds[x] for x in (missing[:1] or readable[:1])])))
+                else:
+                    _add(kr, 'C13/K4/sub-directory-handed-to-the-project', 'a directory holding %s is expanded to %s: %s is not a file of the directory (checking the list of its files succeeds or fails on the files alone)' % (wit['directory_entries'], got, extra), wit,
+                         ('cli_directory', (['good_file.st'] + extra[:1], ['file', 'dir'])))
+            elif len(kr.validate) < 2 and any(not x.endswith('.st') for x in readable): kr.validate.append(('cli_directory', ([x for x in readable if not x.endswith('.st')][:1], ['file'])))
             if len(kr.samples) < 2: kr.samples.append({'entries': names, 'expanded_to': got})
         M.explore(entry, on_path, max_paths=20000)
     kr.queries += M.stats['smt']
     kr.functions = fn_paths(P, M.encoded); kr.models = sorted(M.models_used)
     kr.stubs = ['std::fs::{canonicalize, metadata, read_dir} and DirEntry::path as nondeterministic environment (Ok/Err per call, entry names symbolic over %s)' % NAMES, 'Path::extension / OsStr::to_str by documented contract']
-    kr.bounds = 'one directory argument with 1..2 [thorough: 3] entries, each entry name a symbolic choice out of %d names (extensions st / ST / iec / txt / none / dot-file), each entry readable or not' % len(NAMES)
+    kr.bounds = 'one directory argument with 1..2 [thorough: 3] entries, each entry name a symbolic choice out of %d names (extensions st / ST / iec / txt / none / dot-file), each entry a regular file, a symbolic link to a file or a sub-directory, each entry readable or not' % len(NAMES)
     kr.exhaustive = True
-    kr.outside = ['nested directories, symbolic links inside the directory']
+    kr.outside = ['what is inside a sub-directory; dangling links']
 
 @replay_factory('cli_directory')
-def _replay_cli_directory(names):
+def _replay_cli_directory(names, kinds=None):
     def rp(ctx):
         import tempfile, os, subprocess
-        d = tempfile.mkdtemp(dir=ctx.tmp); bad = 'PROGRAM r\nVAR\n  x : INT;\nEND_VAR\n  y := 1;\nEND_PROGRAM\n'
-        for nm in names: open(os.path.join(d, re.sub(r'^\d', '', nm) if nm[0].isdigit() else nm), 'w').write(bad)
-        files = sorted(os.listdir(d))
+        d = tempfile.mkdtemp(dir=ctx.tmp); bad = 'PROGRAM r\nVAR\n  x : INT;\nEND_VAR\n  y := 1;\nEND_PROGRAM\n'; good = 'PROGRAM g\nEND_PROGRAM\n'
+        other = tempfile.mkdtemp(dir=ctx.tmp)
+        for i, nm in enumerate(names):
+            k = (kinds or [])[i] if i < len(kinds or []) else 'file'
+            nm = re.sub(r'^\d', '', nm) if nm[0].isdigit() else nm
+            if k == 'dir':
+                os.mkdir(os.path.join(d, nm)); open(os.path.join(d, nm, 'inner.st'), 'w').write(good)
+            elif k == 'link':
+                open(os.path.join(other, nm), 'w').write(bad); os.symlink(os.path.join(other, nm), os.path.join(d, nm))
+            else: open(os.path.join(d, nm), 'w').write(good if 'dir' in (kinds or []) else bad)
+        # the files in the directory: regular files and links to them
+        files = sorted(f for f in os.listdir(d) if os.path.isfile(os.path.join(d, f)))
         r_dir = subprocess.run([ctx.ironplcc_path(), 'check', d], capture_output=True, text=True)
         r_files = subprocess.run([ctx.ironplcc_path(), 'check'] + [os.path.join(d, f) for f in files], capture_output=True, text=True)
         key = lambda r: (r.returncode != 0, 'OK' in r.stdout.split(), sorted(set(re.findall(r'error\[(P\d{4})\]', r.stderr))))
@@ -441,4 +483,102 @@ def _replay_check_empty_set():
         return bad, {'command': 'ironplcc check <empty directory>', 'exit': r.returncode, 'stdout': out[-200:], 'stderr': err_[-300:]}
     return rp
 
-KERNELS = [k1, k2, k2b, k3, k4, k5]
+
+# ---------------------------------------------------------------------------------------------- K6 the project built from the command line holds every file of every argument
+def _k6_run(ctx, kr, role_prefix):
+    P = ctx.program(CR)
+    key = P.find_fn('ironplcc', 'cli::create_project')
+    # a small file system: two files and a directory with two source files and a text file
+    FS = {'one.st': 'file', 'two.st': 'file', 'dir': 'dir', 'dir/a.st': 'file', 'dir/b.iec': 'file'}
+    ARGS = ['one.st', 'dir', 'two.st']
+    st = {}
+    def pth(M, v):
+        while isinstance(v, Ref): v = M.deref(v)
+        if isinstance(v, Agg) and v.name == 'DirEntry': v = v.f[0]
+        if isinstance(v, Agg) and v.name.split('::')[-1] == 'FileId': v = v.f[0]
+        s_ = v.conc() if isinstance(v, Str) else None
+        return s_[len('/abs/'):] if s_ and s_.startswith('/abs/') else s_
+    def st_canon(M, fr, c, a): return ok(Str('/abs/' + pth(M, a[0])))
+    def st_meta(M, fr, c, a):
+        k = FS.get(pth(M, a[0]))
+        return ok(Agg('Metadata', [{'dir': 0, 'file': 1}[k]])) if k else err(Opaque('io::Error'))
+    def st_kind(M, fr, c, a): return M.deref(a[0]).f[0] == {'is_dir': 0, 'is_file': 1, 'is_symlink': 2}[c.rsplit('::', 1)[1]]
+    def st_pathis(M, fr, c, a):
+        k = FS.get(pth(M, a[0])); what = c.rsplit('::', 1)[1]
+        return {'is_file': k == 'file', 'is_dir': k == 'dir', 'is_symlink': False, 'exists': k is not None}[what]
+    def st_read_dir(M, fr, c, a):
+        d = pth(M, a[0])
+        if FS.get(d) != 'dir': return err(Opaque('io::Error'))
+        return ok(IterV([ok(Agg('DirEntry', [Str('/abs/' + p_)])) for p_ in FS if p_.startswith(d + '/')]))
+    def st_try_from(M, fr, c, a):
+        fid = M.deref(a[0]); p_ = pth(M, fid)
+        st['loaded'].append(p_)
+        if FS.get(p_) != 'file': return err(Agg('Diagnostic', [Str('P0026'), Str('unreadable ' + str(p_))]))
+        return ok(LSP.mkstruct(P, 'Source', file_id=deep_clone(fid), data=Str('text of ' + p_), library=none()))
+    from . import lspcommon as LSP
+    stubs = {r'^std::fs::canonicalize(::<.*>)?$': st_canon, r'^std::fs::metadata(::<.*>)?$': st_meta, r'^std::fs::(Metadata|FileType)::(is_dir|is_file|is_symlink)$': st_kind,
+             r'^std::fs::DirEntry::(file_type|metadata)$': st_meta, r'^std::fs::Metadata::file_type$': lambda M, fr, c, a: M.deref(a[0]), r'^std::path::Path::(is_file|is_dir|is_symlink|exists)$': st_pathis,
+             r'^<std::path::PathBuf as std::ops::Deref>::deref$|^std::path::PathBuf::as_path$': lambda M, fr, c, a: a[0],
+             r'^std::fs::read_dir(::<.*>)?$': st_read_dir, r'^std::fs::DirEntry::path$': lambda M, fr, c, a: M.deref(a[0]).f[0],
+             r'^source::Source::try_from_file_id$': st_try_from, r'^cli::handle_diagnostics$': lambda M, fr, c, a: UNIT,
+             r'FileId::from_path$|FileId::from_dir_entry$': lambda M_, fr, c, a: Agg('FileId', [Str(list((M_.deref(a[0]).f[0] if isinstance(M_.deref(a[0]), Agg) else M_.deref(a[0])).b))]),
+             r'^cli::diagnostic$': lambda M, fr, c, a: VecV([Agg('Diagnostic', [Str('problem'), Str('d')])]),
+             r'^<std::io::Error as std::string::ToString>::to_string$': lambda M, fr, c, a: Str('io error'), r'^std::path::Path::display$': lambda M, fr, c, a: Str('path')}
+    M = Machine(P, stubs=stubs, max_steps=20_000_000)
+    import itertools
+    ORDERS = [o for n in (1, 2, 3) for o in itertools.permutations(range(3), n)]
+    def entry(M):
+        v = M.fresh_bv('arguments', 8); M.declare_domain(v, list(range(len(ORDERS)))); oi = len(ORDERS) - 1
+        for k in range(len(ORDERS) - 1):
+            if M.branch(v == k): oi = k; break
+        st['args'] = [ARGS[i] for i in ORDERS[oi]]; st['loaded'] = []
+        return M.call_fn(key, [Ref(Cell(VecV([Str(x) for x in st['args']]))), True])
+    def on_path(M, pr):
+        kr.paths += 1
+        if pr.inconclusive: kr.inconc(pr.inconclusive); return
+        kr.nontrivial += 1
+        args = st['args']; wit = {'arguments': args}
+        want = set()
+        for x in args: want |= ({x} if FS[x] == 'file' else {p_ for p_ in FS if p_.startswith(x + '/')})
+        rep = ('cli_arguments', (args,))
+        if pr.panic: _add(kr, role_prefix + '/panic', 'create_project panics: ' + pr.panic.msg[:60], wit, rep); return
+        res = pr.result
+        if res.disc != 0: _add(kr, role_prefix + '/readable-set-refused', 'create_project fails for the readable paths %s' % args, wit, rep); return
+        proj = res.f[0]; srcs = proj.f[0]
+        have = set()
+        for e in (srcs.items if isinstance(srcs, VecV) else []):
+            k_ = e.f[0] if isinstance(e, Agg) else e
+            have.add(pth(M, k_) or repr(k_)[:80])
+        if have != want:
+            lost = sorted(want - have); extra = sorted(have - want)
+            _add(kr, role_prefix + ('/file-dropped' if lost else '/unexpected-file'), 'ironplcc check %s: the project holds %s; the files named by the arguments are %s (dropped: %s)' % (' '.join(args), sorted(have), sorted(want), lost), wit, rep)
+        elif len(kr.validate) < 2 and len(args) > 1 and 'dir' in args: kr.validate.append(rep)
+        if len(kr.samples) < 3: kr.samples.append({'arguments': args, 'project_files': sorted(have)})
+    M.explore(entry, on_path)
+    kr.queries += M.stats['smt']
+    kr.functions = fn_paths(P, M.encoded); kr.models = sorted(M.models_used)
+    kr.stubs = ['a fixed small file system (two files, one directory with two sources) behind std::fs::{canonicalize, metadata, read_dir}, Path::is_*; Source::try_from_file_id reads from it; handle_diagnostics ignored']
+    kr.bounds = 'every sequence of 1..3 distinct arguments out of {one.st, dir, two.st} (symbolic choice): cli::create_project with the real enumerate_files and the real FileBackedProject: the project holds exactly the files the arguments name'
+    kr.exhaustive = True
+    kr.outside = ['unreadable paths (K3); what a directory expands to (K4)']
+
+@kernel('K6 cli.project_holds_every_argument')
+def k6(ctx, kr): _k6_run(ctx, kr, 'C13/K6')
+
+@replay_factory('cli_arguments')
+def _replay_cli_arguments(args):
+    def rp(ctx):
+        import tempfile, os, subprocess
+        d = tempfile.mkdtemp(dir=ctx.tmp); good = 'PROGRAM unit%d\nVAR\n  x : INT;\nEND_VAR\n  x := 1;\nEND_PROGRAM\n'
+        os.mkdir(os.path.join(d, 'dir'))
+        names = {}
+        for i, f in enumerate(['one.st', 'two.st', 'dir/a.st', 'dir/b.iec']): open(os.path.join(d, f), 'w').write(good % i); names[f] = 'unit%d' % i
+        # `echo` renders every file of the project: the program names in its output are the files that were loaded
+        want = set()
+        for a in args: want |= ({names[a]} if a != 'dir' else {names['dir/a.st'], names['dir/b.iec']})
+        r = subprocess.run([ctx.ironplcc_path(), 'echo'] + [os.path.join(d, a) for a in args], capture_output=True, text=True)
+        got = set(re.findall(r'PROGRAM (unit\d)', r.stdout))
+        return got != want, {'arguments': args, 'programs_rendered': sorted(got), 'programs_in_the_named_files': sorted(want), 'exit': r.returncode}
+    return rp
+
+KERNELS = [k1, k2, k2b, k3, k4, k5, k6]
